@@ -52,6 +52,31 @@ def run(chk):
             stv, mv = C.excname(cls.make_vertices, a, float({323: 1, 423: 2, 523: 2}[code]), c)
             meta.append(dict(code=code, a=a, c=c, st=st, sh=sh, stv=stv, mv=mv, i=len(cases)))
             cases.append(C.encode_case("family", sc=[code, a, c]))
+    # what a family hands out is the caller's: damaging a returned vertex array / shape must not change the next answer
+    for code, cls, (a0, a1), (c0, c1), k in fams:
+        a, c, b = (a0 + a1) / 2, (c0 + c1) / 2, float({323: 1, 423: 2, 523: 2}[code])
+        st, v1 = C.excname(cls.make_vertices, a, b, c)
+        if st == "ok":
+            ref = np.array(v1, float).copy()
+            try:
+                np.asarray(v1)[...] *= 3.0
+            except Exception:  # noqa: BLE001
+                pass
+            st2, v2 = C.excname(cls.make_vertices, a, b, c)
+            chk.case([code, "aliasing"], True)
+            if st2 != "ok" or not np.array_equal(np.array(v2, float), ref):
+                chk.violation("family-result-aliased", dict(family=code, a=a, c=c, what="make_vertices after modifying a previously returned array differs", outcome=st2))
+        st, s1 = C.excname(cls.get_shape, a, c)
+        if st == "ok":
+            ref = np.array(s1.vertices, float).copy()
+            try:
+                s1.volume = 7.0
+                np.asarray(s1.vertices)[...] += 1.0
+            except Exception:  # noqa: BLE001
+                pass
+            st2, s2 = C.excname(cls.get_shape, a, c)
+            if st2 != "ok" or not np.array_equal(np.array(s2.vertices, float), ref):
+                chk.violation("family-result-aliased", dict(family=code, a=a, c=c, what="get_shape after modifying a previously returned shape differs", outcome=st2))
     res = C.run_model(cases)
     nvm, okvm = C.vm_crosscheck([c for c in cases if c.startswith("50|323")][:2], [r for c, r in zip(cases, res) if c.startswith("50|323")][:2], "C17", limit=2)
     if not okvm:
